@@ -94,7 +94,6 @@ MACROS = [
     Item(M, 'macro', 'sh_trace'),
     Item(M, 'macro', 'go'),
     Item(M, 'macro', 'get_char'),
-    Item(M, 'macro', 'peek'),
     Item(M, 'macro', 'eat'),
     Item(M, 'macro', 'eat_exact'),
 ]
@@ -162,7 +161,7 @@ PARTS = MACROS + [
     tk('have_appropriate_end_tag'), tk('create_attribute'), tk('finish_attribute'), tk('emit_current_doctype'),
     tk('doctype_id', mode='assume'), tk('clear_doctype_id'), tk('start_consuming_character_reference'),
     tk('emit_eof'), tk('peek'), tk('discard_char'), tk('emit_error'),
-    tk('step'), tk('step_char_ref_tokenizer', mode='assume'), tk('process_char_ref'), tk('end'), tk('eof_step'),
+    tk('step', split=int(__import__('os').environ.get('VERIF_STEP_PARTS', '14'))), tk('step_char_ref_tokenizer', mode='assume'), tk('process_char_ref'), tk('end'), tk('eof_step'),
     tk('dump_profile', mode='assume'),
     tk('is_supported_simd_feature_detected', mode='assume'), tk('data_state_simd_fast_path'),
     tk('data_state_sse2_fast_path', mode='assume'),
